@@ -208,7 +208,8 @@ def move_staticmethod_static_scope(source: str, preserve: Collection[str]) -> st
                 ],
                 type_params=[],
                 returns=funcdef.returns,
-                lineno=max(classdef.lineno - 1, 1),  # line 0 does not exist
+                # Right in front of the class (the line before it may belong to another statement)
+                lineno=min(node.lineno for node in [classdef, *classdef.decorator_list]),
                 col_offset=classdef.col_offset,
             )
             yield funcdef, None, transaction
